@@ -390,61 +390,196 @@ def make_exp_atom(arg):
 
 
 # ---------------------------------------------------------------------------
-# rational functions
+# exact multivariate division (integer exponents only)
+
+def _int_exps(m):
+    out = {}
+    for a, e in m.f:
+        c = e.as_const()
+        if c is None or c.denominator != 1:
+            return None
+        out[a] = int(c)
+    return out
+
+
+def _lead(p):
+    """leading (monomial, coefficient) in a lexicographic order on atoms"""
+    best = None
+    for m, c in p.t.items():
+        ex = _int_exps(m)
+        if ex is None:
+            return None
+        k = tuple(sorted(((a.sort_key(), n) for a, n in ex.items()), reverse=True))
+        if best is None or k > best[0]:
+            best = (k, m, c)
+    return best[1], best[2]
+
+
+def _atoms_of(p):
+    s = set()
+    for m in p.t:
+        for a, e in m.f:
+            s.add(a)
+    return s
+
+
+def poly_div_exact(n, d):
+    """n / d when d divides n exactly (polynomials with integer exponents), else None"""
+    if d.is_zero():
+        return None
+    st = d.single_term()
+    if st is not None:
+        return None
+    if not _atoms_of(d) <= _atoms_of(n):
+        return None
+    atoms = sorted(_atoms_of(n) | _atoms_of(d), key=lambda a: a.sort_key(), reverse=True)
+
+    def vec(m):
+        ex = _int_exps(m)
+        if ex is None:
+            return None
+        return tuple(ex.get(a, 0) for a in atoms)
+
+    dn = {}
+    for m, c in d.t.items():
+        v = vec(m)
+        if v is None or any(x < 0 for x in v):
+            return None
+        dn[v] = c
+    rn = {}
+    for m, c in n.t.items():
+        v = vec(m)
+        if v is None:
+            return None
+        rn[v] = c
+    dlead = max(dn)
+    dlc = dn[dlead]
+    q = {}
+    steps = 0
+    while rn:
+        steps += 1
+        if steps > 5000:
+            return None
+        rl = max(rn)
+        diff = tuple(a - b for a, b in zip(rl, dlead))
+        if any(x < 0 for x in diff) and all(min(k) >= 0 for k in rn):
+            return None
+        coef = rn[rl] / dlc
+        q[diff] = q.get(diff, 0) + coef
+        for dv, dc in dn.items():
+            k = tuple(a + b for a, b in zip(diff, dv))
+            nv = rn.get(k, 0) - coef * dc
+            if nv == 0:
+                rn.pop(k, None)
+            else:
+                rn[k] = nv
+        if any(x < -64 for x in diff):
+            return None
+    terms = {}
+    for v, c in q.items():
+        if c == 0:
+            continue
+        terms[Mono(dict((a, pconst(x)) for a, x in zip(atoms, v) if x != 0))] = c
+    return Poly(terms)
+
+
+# ---------------------------------------------------------------------------
+# rational functions (denominator kept as a product of factors)
 
 class RF(object):
-    __slots__ = ("n", "d", "_h")
+    __slots__ = ("n", "df", "_d", "_h")
 
-    def __init__(self, n, d=None):
-        if d is None:
-            d = ONE
-        if d.is_zero():
-            raise Unsupported("division by zero in normal form")
-        st = d.single_term()
-        if st is not None:
-            m, c = st
-            inv = Mono(dict((a, -e) for a, e in m.f))
-            # exp atoms in a denominator: negate the argument instead
-            fd = {}
-            k = Fraction(1)
-            for a, e in inv.f:
-                if isinstance(a, ExpA):
-                    ea, kk = make_exp_atom(-a.arg)
-                    k *= kk
-                    if ea is not None:
-                        fd[ea] = ONE
-                else:
-                    fd[a] = e
-            n = n * Poly({Mono(fd): k / c})
-            d = ONE
-        else:
-            # normalise: leading coefficient of d is 1
-            lead = d.sorted_terms()[0][1]
+    def __init__(self, n, d=None, df=None):
+        """n: Poly; d: Poly (a single new factor) or df: dict Poly -> multiplicity"""
+        fac = {}
+        if df:
+            for f, m in df.items():
+                fac[f] = fac.get(f, 0) + m
+        if d is not None and d != ONE:
+            fac[d] = fac.get(d, 0) + 1
+        clean = {}
+        for f, m in fac.items():
+            if m == 0:
+                continue
+            if f.is_zero():
+                raise Unsupported("division by zero in normal form")
+            st = f.single_term()
+            if st is not None:
+                mono, c = st
+                fd = {}
+                k = Fraction(1)
+                for a, e in mono.f:
+                    if isinstance(a, ExpA):
+                        ea, kk = make_exp_atom((-a.arg).scale(m))
+                        k *= kk
+                        if ea is not None:
+                            fd[ea] = ONE
+                    else:
+                        fd[a] = (-e).scale(m)
+                n = n * Poly({Mono(fd): k / (c ** m)})
+                continue
+            lead = f.sorted_terms()[0][1]
             if lead != 1:
-                n = n.scale(1 / lead)
-                d = d.scale(1 / lead)
+                f = f.scale(1 / lead)
+                n = n.scale(1 / (lead ** m))
+            f = intern_poly(f)
+            clean[f] = clean.get(f, 0) + m
+        # cancel common factors
+        if not n.is_zero():
+            for f in list(clean):
+                while clean[f] > 0:
+                    q = poly_div_exact(n, f)
+                    if q is None:
+                        break
+                    n = q
+                    clean[f] -= 1
+                if clean[f] == 0:
+                    del clean[f]
+        else:
+            clean = {}
         self.n = n
-        self.d = d
+        self.df = clean
+        self._d = None
         self._h = None
+
+    @property
+    def d(self):
+        if self._d is None:
+            p = ONE
+            for f, m in self.df.items():
+                for _ in range(m):
+                    p = p * f
+            self._d = p
+        return self._d
 
     def __hash__(self):
         if self._h is None:
-            self._h = hash((self.n, self.d))
+            self._h = hash((self.n, frozenset(self.df.items())))
         return self._h
 
     def __eq__(self, o):
-        return isinstance(o, RF) and o.n == self.n and o.d == self.d
+        return isinstance(o, RF) and o.n == self.n and o.df == self.df
 
     def __add__(self, o):
         o = rf(o)
-        if self.d == o.d:
-            return RF(self.n + o.n, self.d)
-        return RF(self.n * o.d + o.n * self.d, self.d * o.d)
+        if self.df == o.df:
+            return RF(self.n + o.n, df=self.df)
+        lcm = dict(self.df)
+        for f, m in o.df.items():
+            lcm[f] = max(lcm.get(f, 0), m)
+        na = self.n
+        nb = o.n
+        for f, m in lcm.items():
+            for _ in range(m - self.df.get(f, 0)):
+                na = na * f
+            for _ in range(m - o.df.get(f, 0)):
+                nb = nb * f
+        return RF(na + nb, df=lcm)
 
     __radd__ = __add__
 
     def __neg__(self):
-        return RF(-self.n, self.d)
+        return RF(-self.n, df=self.df)
 
     def __sub__(self, o):
         return self + (-rf(o))
@@ -454,7 +589,12 @@ class RF(object):
 
     def __mul__(self, o):
         o = rf(o)
-        return RF(self.n * o.n, self.d * o.d)
+        if not self.df and not o.df:
+            return RF(self.n * o.n)
+        df = dict(self.df)
+        for f, m in o.df.items():
+            df[f] = df.get(f, 0) + m
+        return RF(self.n * o.n, df=df)
 
     __rmul__ = __mul__
 
@@ -462,7 +602,12 @@ class RF(object):
         o = rf(o)
         if o.n.is_zero():
             raise Unsupported("division by zero")
-        return RF(self.n * o.d, self.d * o.n)
+        # self.n * o.d / (self.d * o.n)
+        num = RF(self.n, df=self.df)
+        for f, m in o.df.items():
+            for _ in range(m):
+                num = num * RF(f)
+        return RF(num.n, d=o.n, df=num.df)
 
     def __rtruediv__(self, o):
         return rf(o) / self
@@ -474,7 +619,7 @@ class RF(object):
         return self.n.is_zero()
 
     def as_const(self):
-        if self.d == ONE:
+        if not self.df:
             return self.n.as_const()
         return None
 
@@ -485,9 +630,11 @@ class RF(object):
         return depends_on(self, name)
 
     def __repr__(self):
-        if self.d == ONE:
+        if not self.df:
             return repr(self.n)
-        return "(%r)/(%r)" % (self.n, self.d)
+        ds = "*".join(("(%r)" % f) + ("^%d" % m if m > 1 else "") for f, m in
+                      sorted(self.df.items(), key=lambda fm: repr(fm[0])))
+        return "(%r)/%s" % (self.n, ds)
 
 
 def rf(x):
@@ -512,7 +659,7 @@ def app(fn, args, dorder=0):
 
 def exp_(x):
     x = rf(x)
-    if x.d != ONE:
+    if x.df:
         raise Unsupported("exp of a genuine rational function: %r" % (x,))
     a, k = make_exp_atom(x.n)
     if a is None:
@@ -528,7 +675,7 @@ def log_(x):
             raise Unsupported("log of non-positive constant")
         return const(math.log(float(c)))
     # log(exp(P)) = P
-    st = x.n.single_term() if x.d == ONE else None
+    st = x.n.single_term() if not x.df else None
     if st is not None:
         m, c = st
         if c == 1 and len(m.f) == 1:
@@ -594,7 +741,7 @@ def pow_(base, e):
             b = b * b if n > 1 else b
             n >>= 1
         return result
-    if e.d != ONE:
+    if e.df:
         raise Unsupported("rational-function exponent")
     epoly = e.n
     bc = base.as_const()
@@ -607,7 +754,7 @@ def pow_(base, e):
             raise Unsupported("non-positive constant base with symbolic exponent")
         # c ** e = exp(e log c)
         return exp_(RF(epoly.scale(frac(math.log(float(bc))))))
-    if base.d != ONE:
+    if base.df:
         return pow_(RF(base.n), e) / pow_(RF(base.d), e)
     st = base.n.single_term()
     if st is not None:
@@ -694,10 +841,14 @@ def d_atom(a, name):
 
 def D(x, name="r"):
     x = rf(x)
-    if x.d != ONE:
-        dn = _dpoly(x.n, name)
-        dd = _dpoly(x.d, name)
-        return (dn * RF(x.d) - RF(x.n) * dd) / (RF(x.d) * RF(x.d))
+    if x.df:
+        # product rule over n * prod f^-m
+        total = _dpoly(x.n, name) * RF(ONE, df=x.df)
+        for f, m in x.df.items():
+            df2 = dict(x.df)
+            df2[f] = m + 1
+            total = total - RF(x.n, df=df2) * _dpoly(f, name) * const(m)
+        return total
     return _dpoly(x.n, name)
 
 
@@ -734,9 +885,12 @@ def substitute(x, env):
     """Replace symbols (by name) with RF values; rebuilds through the
     constructors so the result is again in normal form."""
     x = rf(x)
-    if x.d == ONE:
-        return _subst_poly(x.n, env)
-    return _subst_poly(x.n, env) / _subst_poly(x.d, env)
+    res = _subst_poly(x.n, env)
+    for f, m in x.df.items():
+        fv = _subst_poly(f, env)
+        for _ in range(m):
+            res = res / fv
+    return res
 
 
 def _subst_poly(p, env):
@@ -749,6 +903,14 @@ def _subst_poly(p, env):
             term = term * pow_(av, ev)
         total = total + term
     return total
+
+
+def _subst_key(k, env):
+    if isinstance(k, tuple):
+        return tuple(_subst_key(x, env) for x in k)
+    if isinstance(k, RF):
+        return substitute(k, env)
+    return k
 
 
 def _subst_atom(a, env):
@@ -766,7 +928,7 @@ def _subst_atom(a, env):
         args = [substitute(x, env) for x in a.args]
         if fnv is not None:
             return fnv(*args)
-        return RF(patom(AppA(a.fn, a.dorder, args)))
+        return RF(patom(AppA(_subst_key(a.fn, env), a.dorder, args)))
     raise TypeError(a)
 
 
@@ -793,7 +955,7 @@ def poly_close(p, q, tol=TOL):
 def equal(a, b, tol=TOL):
     """Tolerant equality of two values -> (ok, detail)."""
     a, b = rf(a), rf(b)
-    if a.d == b.d:
+    if a.df == b.df:
         return poly_close(a.n, b.n, tol)
     return poly_close(a.n * b.d, b.n * a.d, tol)
 
@@ -804,4 +966,4 @@ def is_zero(a, tol=TOL):
 
 def nterms(a):
     a = rf(a)
-    return len(a.n.t) + (len(a.d.t) if a.d != ONE else 0)
+    return len(a.n.t) + (len(a.d.t) if a.df else 0)
